@@ -8,7 +8,7 @@ wt=/tmp/seedwt/$sid; scr=/tmp/seedwt/verif-$sid
 rm -rf $wt $scr; mkdir -p /tmp/seedwt
 git -C /repo worktree add -q --detach $wt HEAD || exit 2
 [ -n "$SEED_KEEP" ] || trap 'git -C /repo worktree remove --force $wt 2>/dev/null; rm -rf $wt $scr' EXIT INT TERM
-git -C $wt apply /verif/seeded/$sid/patch.diff || { echo "$sid patch does not apply"; exit 2; }
+git -C $wt apply ${SEED_PATCH:-/verif/seeded/$sid/patch.diff} || { echo "$sid patch does not apply"; exit 2; }
 rsync -a --exclude .git --exclude evidence --exclude replays --exclude seeded ${SEED_SRC:-/verif}/ $scr/
 (cd $scr/harness && go mod edit -replace github.com/paulsonkoly/calc=$wt)
 sed -i "s|cp /repo/go.sum go.sum|cp $wt/go.sum go.sum|" $scr/run.sh
